@@ -58,6 +58,17 @@ CLAIMED = {
         note="Partial: the behaviour of the real sgio/iscsi C bindings is the stated contract (the stubs implement exactly it); the facade's "
              "pass-through of the error is covered by the facade model of C13.",
         technique="Coq: kernel enumeration over a regenerated program + induction over histories + vm_compute correspondence"),
+    "C08": dict(
+        text="Machine-checked proof (Coq): for EVERY non-empty byte string the CheckCondition error is constructed and described without "
+             "raising, and sense key / ASC / ASCQ are the bytes at the SPC-4 positions of the format (absent bytes read 0) — general "
+             "theorems over a model whose format dispatch, lookup forms (.get with default vs. subscript, guard for undecoded data) and "
+             "tables are REGENERATED from scsi_sense.py on every run, under decidable side conditions evaluated by vm_compute; a subset of "
+             "28 T10 ASC/ASCQ texts is compared entry by entry. Tied by a 3000-case correspondence run (all response-code classes x all "
+             "16 keys x boundary and all assigned ASC/ASCQ x 10 length classes).",
+        ref="DESIGN.md §4 C08",
+        note="Partial: only a subset of the T10 ASC/ASCQ text list is in Spec/SenseFmt.v (totality and positions are full); texts are "
+             "compared case-insensitively; text formatting ('%02X') is observed through a parser of str() in the harness.",
+        technique="Coq proof over a regenerated model (reflection side conditions) + vm_compute correspondence"),
     "C10": dict(
         text="Machine-checked proof (Coq 8.16.1) of the codec laws for every buffer size, every contiguous mask at any "
              "alignment, every offset, every in-range value, every field order and arbitrary prior contents "
